@@ -46,6 +46,16 @@ CHECKS = {
             "bounded: 40 / 500 grammars, words <= 5 / 6 units, 40 / 600 search runs; the class is computed per word from the "
             "enumeration (narrower than the property's, never wider); CPython re trusted for maximal munch",
             "TLC-enumerated languages replayed into the real parser + round trip of generated trees judged by TLC"),
+    "C06": ("model_checking",
+            "Earley.tla models the chart parser with two admission rules; TLC checks <>[]Quiescent under weak fairness for the "
+            "specification's rule and shows unbounded growth for the implementation's rule exactly on the cyclic-empty-derivation "
+            "configurations; every word and near-miss of the Lang.tla-enumerated corpus plus hand-written nullable/recursive "
+            "templates is parsed by the real parser (first tree, forest, prefix mode) with admissions counted at Column.add "
+            "against a budget 1000x above the item bound of a terminating chart parser; recorded non-terminating classes are "
+            "replayed as pinned witnesses",
+            "bounded: 30 / 400 grammars + 9 templates, inputs <= 5 / 6 units; non-termination = budget overrun (>= 200000 "
+            "admissions or 20 s CPU; terminating runs stay below 2500 admissions) or an endless forest; F16/F17/F29 known",
+            "TLA+ liveness model (TLC, fairness) + budgeted real parses over TLC-enumerated inputs"),
     "C09": ("model_checking",
             "TreeValue.tla: reference value semantics (bits/bytes/text over the leaf sequence) and the implementation-shaped "
             "value object (append / flush / views) folded subtree by subtree; TLC checks that they agree for every leaf "
